@@ -2,6 +2,7 @@ package props
 
 import (
 	"bytes"
+	"context"
 	"fmt"
 	"os"
 	"os/exec"
@@ -12,6 +13,7 @@ import (
 	"testing"
 	"time"
 
+	"github.com/oneconcern/datamon/pkg/cafs"
 	context2 "github.com/oneconcern/datamon/pkg/context"
 	"github.com/oneconcern/datamon/pkg/core"
 	"github.com/oneconcern/datamon/pkg/model"
@@ -248,7 +250,7 @@ func TestC15(t *testing.T) {
 	if lib.Thorough() {
 		pb = 3
 	}
-	rep.Rule = fmt.Sprintf("2..3 concurrent clients out of {upload X, upload Y (shares a file and a leaf with X), download of a committed bundle, label set, split upload, diamond commit}, internal concurrency 2, every blob / metadata / vmetadata store call a scheduling point, all interleavings with <=%d preemptions; oracle (differential): every operation succeeds and its result equals the result of the same operation run alone from the same initial stores; blob store = union of the solo runs, no existing blob rewritten; companion pass (sampling, not exhaustive): the same bodies free-running under the Go race detector; distinct = distinct (scenario, outcome)", pb)
+	rep.Rule = fmt.Sprintf("2..3 concurrent clients out of {upload X, upload Y (shares a file and a leaf with X), download of a committed bundle, label set, split upload, diamond commit}, internal concurrency 2, every blob / metadata / vmetadata store call a scheduling point, all interleavings with <=%d preemptions; oracle (differential): every operation succeeds and its result equals the result of the same operation run alone from the same initial stores; blob store = union of the solo runs, no existing blob rewritten; companion pass (sampling, not exhaustive): the same bodies, and 8 readers doing ReadAt over one cafs.Fs whose leaf cache holds a single leaf, free-running under the Go race detector; distinct = distinct (scenario, outcome)", pb)
 	combos := [][]string{{"uploadX", "uploadY"}, {"uploadX", "download"}, {"uploadX", "label", "download"}, {"split2", "uploadX"}, {"commit", "uploadY"}, {"split2", "download", "label"}}
 	if lib.Thorough() {
 		combos = append(combos, []string{"uploadX", "uploadY", "download"}, []string{"commit", "uploadX", "label"})
@@ -317,6 +319,9 @@ func TestC15(t *testing.T) {
 				}
 			}
 			rep.Violate("C15|data-race|"+strings.Join(top, "|"), fmt.Sprintf("GOMAXPROCS=%d: %s", procs, lib.Tail(report, 3000)), map[string]interface{}{"gomaxprocs": procs})
+		} else if idx := bytes.Index(out, []byte("C15-READ-MISMATCH")); idx >= 0 {
+			races++
+			rep.Violate("C15|concurrent-readat|differs-from-a-lone-read", fmt.Sprintf("GOMAXPROCS=%d: %s", procs, lib.Tail(string(out[idx:min2(idx+600, len(out))]), 600)), map[string]interface{}{"gomaxprocs": procs})
 		} else if !bytes.Contains(out, []byte("ok")) && !bytes.Contains(out, []byte("PASS")) {
 			rep.Note("race pass run did not complete: " + lib.Tail(string(out), 400))
 		}
@@ -329,6 +334,7 @@ func TestC15Race(t *testing.T) {
 	if os.Getenv("VERIF_RACE_RUN") == "" {
 		t.Skip("companion pass body; run through TestC15")
 	}
+	c15raceReaders(t)
 	rounds := []int{2, 8, 16}
 	if lib.Thorough() {
 		rounds = []int{2, 4, 8, 16, 16, 16, 16, 16}
@@ -346,4 +352,53 @@ func TestC15Race(t *testing.T) {
 		}
 		wg.Wait()
 	}
+}
+
+// c15raceReaders: 8 readers doing ReadAt of whole leaves over one cafs.Fs whose leaf cache holds a single leaf (every read
+// evicts and recycles a buffer another reader may still be served from). Free-running, for the race detector; a read
+// returning other bytes than a lone read prints a marker the parent turns into a violation.
+func c15raceReaders(t *testing.T) {
+	const L = 1 << 20
+	blobs := lib.NewMemStore("blob")
+	blobs.NoJournal = true
+	fs, err := cafs.New(cafs.LeafSize(L), cafs.Backend(blobs), cafs.CacheSize(L))
+	if err != nil {
+		t.Fatal(err)
+	}
+	ctx := context.Background()
+	var roots []cafs.Key
+	var want [][]byte
+	for f := 0; f < 3; f++ {
+		content := pattern(fmt.Sprintf("file%d", f), 3*L, L)
+		res, err := fs.Put(ctx, bytes.NewReader(content))
+		if err != nil {
+			t.Fatal(err)
+		}
+		roots, want = append(roots, res.Key), append(want, content)
+	}
+	var wg sync.WaitGroup
+	for g := 0; g < 8; g++ {
+		wg.Add(1)
+		go func(g int) {
+			defer wg.Done()
+			got := make([]byte, L)
+			for i := 0; i < 40; i++ {
+				f, l := 0, 0
+				if (g+i)%2 == 0 {
+					f, l = (g*7+i)%3, (g+i*5)%3
+				}
+				rdr, err := fs.GetAt(ctx, roots[f])
+				if err != nil {
+					fmt.Printf("C15-READ-MISMATCH GetAt: %v\n", err)
+					return
+				}
+				n, err := rdr.ReadAt(got, int64(l)*L)
+				if err != nil || n != L || !bytes.Equal(got, want[f][l*L:(l+1)*L]) {
+					fmt.Printf("C15-READ-MISMATCH reader %d round %d: ReadAt(file %d, leaf %d) = %d bytes, %v; bytes equal to a lone read: %v\n", g, i, f, l, n, err, bytes.Equal(got, want[f][l*L:(l+1)*L]))
+					return
+				}
+			}
+		}(g)
+	}
+	wg.Wait()
 }
